@@ -659,6 +659,19 @@ class MaskedSel(object):
     def __init__(self, arr, mask):
         self.arr, self.mask = arr, mask
 
+    @property
+    def size(self):
+        if MASKED_SIZE_HOOK is None:
+            raise AnalysisError('size of a selection by an undetermined boolean mask')
+        return MASKED_SIZE_HOOK(self)
+
+    @property
+    def ndim(self):
+        return 1
+
+
+MASKED_SIZE_HOOK = None      # set by the data-abstract domain: number of selected elements as an unknown integer
+
 
 class Choice(object):
     """np.where / masked store with a symbolic condition: cond ? a : b (elementwise)."""
